@@ -29,6 +29,8 @@ package cose
 //@   ensures! result0 && err == nil && payload == nil ==> SigOk(u(s1), u(key))
 //@   ensures @errfalse err != nil ==> !result0
 //@   ensures @payload err == nil && payload == nil ==> s1.Payload != nil
+//@   assume primok(True()) != True()
+//@   ensures @primitive result0 ==> primok(True()) == True()
 //@   callassert Verify#1: @key u(arg0) == u(key)
 //@   callassert Verify#1: @digest bytes(arg1) == digest(happ(hinit(u(sighash(alg))), Enc(tuple("Signature1", protected, tuple(additionalData), *s1.Payload))))
 //@   callassert Verify#1: @r BigVal(u(arg2)) == BigOf(bytes(s1.Signature[0:n]))
@@ -41,10 +43,13 @@ package cose
 
 //@ func cose.verifyRSA
 //@   params pub hash digest sig alg
-//@   props C13 C10(sweep)
+//@   props C13 C01(functional) C04(functional) C06(functional) C07(functional) C10(sweep)
 //@   sweep bounds,panic,make,nilmem
 //@   pure
 //@   ensures @errfalse err != nil ==> !result0
+//@   assume primok(True()) != True()
+//@   ensures @primitive result0 ==> primok(True()) == True()
+//@   ghostpost primok(True()) := ite(result0, True(), False())
 //@   callassert VerifyPKCS1v15#1: @args u(arg0) == u(pub) && arg1 == hash && bytes(arg2) == bytes(digest) && bytes(arg3) == bytes(sig)
 //@   callassert VerifyPKCS1v15#1: @alg alg == -257 || alg == -258 || alg == -259
 //@   callassert VerifyPSS#1: @args u(arg0) == u(pub) && arg1 == hash && bytes(arg2) == bytes(digest) && bytes(arg3) == bytes(sig)
@@ -95,11 +100,12 @@ package cose
 //@   local err = call:cbor.Encoder.Encode#1 | extract1:call:cose.MacAlgorithm.NewMac#1 | extract1:call:cose.newEmptyOrSerializedMap#1
 //@   local macPayload = Phi#1 | UnOp#6 | call:cbor.NewByteWrap#1
 //@   local protected = extract0:call:cose.newEmptyOrSerializedMap#1
-//@   props C13 C05(functional)
+//@   props C13 C05(functional) C02(functional)
 //@   sweep bounds,panic,make,nilmem
 //@   requires @registered macregistered(alg)
 //@   modifies m0.Value, m0.Protected
 //@   ensures @payload err == nil && payload == nil ==> m0.Payload != nil
+//@   ensures @keepprotected old(!isnil(m0.Protected)) ==> u(m0.Protected) == old(u(m0.Protected))
 //@   ensures! err == nil && payload == nil ==> bytes(m0.Value) == MacOf(u(alg), bytes(key), u(m0.Protected), u(*m0.Payload))
 //@   callassert Encode#1: @structure ? u(unwrap(v)) == tuple("MAC0", protected, tuple(aad), *macPayload)
 
@@ -245,3 +251,16 @@ package cose
 //@   callsites NewCBCEncrypter 1
 //@   callassert NewCBCEncrypter#1: @iv filledfrom(arg1) == u(rand) && len(arg1) > 0
 //@   ensures @header ? err == nil ==> mapval(unprotected, IvLabel) == u(iv)
+
+// the COSE algorithm chosen for an RSA key: RSASSA-PSS only with a salt as long as the
+// hash (the only form Verify accepts), the id by hash size, anything else is an error
+//@ func cose.rsaSigAlg
+//@   params opts
+//@   local pssOpts = extract0:TypeAssert#1
+//@   local usingPss = extract1:TypeAssert#1
+//@   props C13 C09 C10(sweep)
+//@   sweep panic,nilmem,bounds
+//@   pure
+//@   ensures @salt ? err == nil && usingPss ==> pssOpts.SaltLength == -1 || pssOpts.SaltLength == hsz(u(pssOpts.Hash))
+//@   ensures @table err == nil ==> result0 == -257 || result0 == -258 || result0 == -259 || result0 == -37 || result0 == -38 || result0 == -39
+//@   ensures @kind ? err == nil ==> usingPss == (result0 == -37 || result0 == -38 || result0 == -39)
